@@ -63,7 +63,32 @@ def r_basemodel_attrs():
     lib.write_gen("BaseModelAttrs", HEADER + f"Definition base_attrs : list str := {coq_list(names, coq_str)}.\n")
 
 
+def escape_tables():
+    lib.ensure_repo_on_path()
+    from datamodel_code_generator.parser import base as pbase
+    from datamodel_code_generator.model.pydantic import types as ptypes
+    from datamodel_code_generator.model import typed_dict as td
+
+    out = {}
+    for name, tbl in (("enum_table", pbase.escape_characters), ("regex_table", ptypes.escape_characters),
+                      ("tdkey_table", td.escape_characters)):
+        if not isinstance(tbl, dict) or not all(isinstance(k, int) and isinstance(v, str) for k, v in tbl.items()):
+            raise TypeError(f"{name}: not a str.maketrans table of int -> str")
+        out[name] = sorted(tbl.items())
+    return out
+
+
+def r_escape():
+    t = escape_tables()
+    out = [HEADER.replace("Str Ranges", "Str Escape")]
+    for name, items in t.items():
+        body = "; ".join(f"({k},{coq_str(v)})" for k, v in items)
+        out.append(f"Definition {name} : etable := [{body}].\n")
+    lib.write_gen("EscapeTables", "\n".join(out))
+
+
 REFLECTORS = {
+    "EscapeTables": r_escape,
     "UnicodeTables": r_unicode,
     "BaseModelAttrs": r_basemodel_attrs,
 }
